@@ -381,11 +381,19 @@ FIELDS = [
     (("D0", "return_this"), True),
     (("D0", "declarations"), [{"decl": "void g()"}]),
     (("D0", "fstatements"), {"c": {"pre_call": "// x"}}),
+    # one level further down: the value of one entry inside a documented container ('key>inner')
+    (("D0", "attrs>a"), {"intent": "in"}),
+    (("D0", "fortran_generic>decl"), "(float a)"),
+    (("D0", "cxx_template>instantiation"), "<int>"),
+    (("D0", "doxygen>brief"), "text"),
 ]
+# how an inner value sits in its container
+INNER = {"attrs>a": lambda v: {"a": v}, "fortran_generic>decl": lambda v: [{"decl": v}],
+         "cxx_template>instantiation": lambda v: [{"instantiation": v}], "doxygen>brief": lambda v: {"brief": v}}
 
 
 # fields whose documented value does not fit the declaration used here ('void f(int a = 1)')
-NOT_VALID_ALONE = ("typemap", "D0/cxx_template", "D0/declarations")
+NOT_VALID_ALONE = ("typemap", "D0/cxx_template", "D0/declarations", "D0/cxx_template>instantiation")
 
 
 class YamlHarness(object):
@@ -418,13 +426,17 @@ class YamlHarness(object):
                 key = path[1]
             else:
                 key = path[0]
+            wrap = (lambda v: v)
+            if ">" in key:
+                wrap = INNER[key]
+                key = key.split(">")[0]
             if kind == "absent":
                 target.pop(key, None)
             elif kind == "ok":
                 if okv is not None:
-                    target[key] = copy.deepcopy(okv)
+                    target[key] = wrap(copy.deepcopy(okv))
             else:
-                target[key] = wrong_value(kind)
+                target[key] = wrap(wrong_value(kind))
         # the first declaration's mapping may occur a second time (a YAML alias: the same object in two places)
         self.shared = bool(e.branch(z3.Bool("declaration_is_aliased")))
         if self.shared and isinstance(d.get("declarations"), list) and d["declarations"] and isinstance(d["declarations"][0], dict):
